@@ -9,6 +9,7 @@ pub mod oracle;
 pub mod pipeprops;
 pub mod pipesim;
 pub mod props;
+pub mod readsim;
 pub mod report;
 pub mod rng;
 pub mod sched;
